@@ -75,7 +75,7 @@ OBLIGATIONS = {
     "C09": ["c09_succeeded_settles", "c09_free_settles", "c09_pending_completed_settles", "c09_stale_pending_frees",
             "c09_pending_pays", "c09_from_wait", "c09_pinned_wedge"],
     "C14": ["c14_frame", "c14_own_state_only", "c14_frozen", "c14_no_pooling", "lift_run", "c14_progress_despite_frozen", "grun_reach", "c14_progress_despite_frozen_global", "c01_global", "c02_global", "c05_global", "c08_global", "c04_global", "c11_global", "rh_wf", "c14_no_infinite_internal_run", "GFairRun.c14_fair_run_answers", "GFairRun.c14_fair_run_exactly_once"],
-    "C19": ["c19_iff", "c19_refuses_deltas", "c19_faithful", "c19_retry_cap"],
+    "C19": ["c19_iff", "c19_refuses_deltas", "c19_faithful", "c19_retry_cap", "c19_policy_fits", "c19_failure_carries_options"],
     "C20": ["c20_max", "c20_monotone", "c20_monotone_run", "c20_told_le", "c20_poll_catches_up", "c20_serve_truthful", "c20_timer_armed", "c20_timer_fires"],
 }
 
